@@ -28,7 +28,7 @@ RULE = (
     "(line-up, cut labelling)."
 )
 ASSUMPTIONS = ["cheap sampler classes only (order, not numerics, is at stake)", "the RL scheduler cannot be checkpointed (known finding under C04): RL runs use no restore"]
-REQUIRED_COUNTERS = {"rr_lineups_with_one_object_twice": 3, "rr_runs_converging_every_batch": 5, "rr_scheduler_reseeded_between_calls": 8, "rr_caller_mutated_its_list": 5, "rl_sessions_without_batches": 3, "rl_agent_may_choose_the_appended_bootstrap": 3, "rr_set_samplers_between_calls": 10, "rr_failed_batches_then_retry": 10, "rl_runs_with_a_zero_loss": 5, "rr_batches": 400, "rr_runs": 80, "rr_restores": 40, "rl_batches": 60, "rl_sessions": 25, "ctor_combinations": 8}
+REQUIRED_COUNTERS = {"rr_lineups_with_one_object_twice": 1, "rr_runs_converging_every_batch": 5, "rr_scheduler_reseeded_between_calls": 8, "rr_caller_mutated_its_list": 5, "rl_sessions_without_batches": 3, "rl_agent_may_choose_the_appended_bootstrap": 3, "rr_set_samplers_between_calls": 10, "rr_failed_batches_then_retry": 10, "rl_runs_with_a_zero_loss": 5, "rr_batches": 300, "rr_runs": 60, "rr_restores": 40, "rl_batches": 60, "rl_sessions": 25, "ctor_combinations": 8}
 SHARDS = {"quick": 16, "thorough": 16}
 SHARD_WATCHDOG = {"quick": 1500, "thorough": 10800}
 
